@@ -74,7 +74,7 @@ let run (path : string) =
         cmpf "V.in.bh" (sz !m_bh) bh; cmpf "V.in.bt" (sz !m_bt) bt; cmpf "V.in.debt" (sz (zadd !m_base !m_rec)) debt;
         let v = { AccrualSites.vs_app_ok = (appok = "1"); vs_pair_found = (pairfound = "1"); vs_fee = fee; vs_stable_mint = (stablemint = "1");
                   vs_pair_bt = pair_bt; vs_bh = !m_bh; vs_bt = !m_bt; vs_debt = zadd !m_base !m_rec; vs_tracker = !m_tr; vs_intacc = !m_rec } in
-        let sel_bt = if zeq !m_bh z0 then pair_bt else !m_bt in
+        let sel_bt = if zeq !m_bh z0 || BinInt.Z.ltb !m_bt pair_bt then pair_bt else !m_bt in
         let m = AccrualSites.vault_interest_with (calc fb) now v in
         cmpf "V.class" (cls_of m) c; bump ("V:" ^ c);
         (* the direct call of CalculationOfRewards on the operands the site must select *)
@@ -106,7 +106,7 @@ let run (path : string) =
         let (mf, mt) = trs !m_tr in
         cmpf "VI.in.tracker" (mf ^ ":" ^ mt) (trf ^ ":" ^ tr); cmpf "VI.in.intacc" (sz !m_rec) intacc;
         cmpf "VI.in.bh" (sz !m_bh) vbh; cmpf "VI.in.bt" (sz !m_bt) vbt;
-        let sel_bt = if zeq !m_bh z0 then coll_bt else !m_bt in
+        let sel_bt = if zeq !m_bh z0 || BinInt.Z.ltb !m_bt coll_bt then coll_bt else !m_bt in
         let m = AccrualSites.vault_iterate_one_with (calc fb) now lsr_ coll_bt !m_bh !m_bt (zs amount_out) !m_tr !m_rec in
         (* an error of CalculationOfRewards ends the loop silently: the function itself returns nothing *)
         cmpf "VI.class" (if cls_of m = "panic" then "panic" else "ok") c; bump ("VI:" ^ cls_of m);
